@@ -172,9 +172,44 @@ def _generator_fn(tree, repo):
 
 custom("kernel_generator", "src/core_codemods/use_generator.py", _KPROPS, "generator_cfg_v", "generator_cfg", "repaired_generator",
        _generator_fn, doc="UseGenerator.leave_Call: which calls are rewritten, what the new argument list is, what is returned otherwise")
-custom("kernel_set_literal", "src/core_codemods/use_set_literal.py", _KPROPS, "set_literal_recognised", "bool", "true",
-       _known("kernel_set_literal", "UseSetLiteral", ["leave_Call"], []),
-       doc="UseSetLiteral.leave_Call")
-custom("kernel_hasattr", "src/core_codemods/fix_hasattr_call.py", _KPROPS, "hasattr_recognised", "bool", "true",
-       _known("kernel_hasattr", "TransformFixHasattrCall", ["on_result_found"], ["detector_pattern"]),
-       doc="TransformFixHasattrCall.on_result_found + the semgrep detector pattern")
+def _set_literal_fn(tree, repo):
+    # FStringSpaced: leave_FormattedStringExpression puts a space before a display that became the expression of a replacement
+    # field (f"{{1, 2}}" would be an escaped brace); Known: the pinned form and the starred-argument repair, without it
+    v = _variant("kernel_set_literal", tree, "UseSetLiteral", ["leave_Call", "leave_FormattedStringExpression"], [])
+    return {"Known": "false", "FStringSpaced": "true"}[v]
+
+
+custom("kernel_set_literal", "src/core_codemods/use_set_literal.py", _KPROPS, "set_literal_fstring_spaced", "bool", "true", _set_literal_fn,
+       doc="UseSetLiteral.leave_Call (+ leave_FormattedStringExpression: is a display kept apart from the brace of an f-string field?)")
+
+
+def _hasattr_fn(tree, repo):
+    v = _variant("kernel_hasattr", tree, "TransformFixHasattrCall", ["on_result_found"], ["detector_pattern"])
+    return {"Pinned": "pinned_hasattr", "Repaired": "repaired_hasattr"}[v]
+
+
+custom("kernel_hasattr", "src/core_codemods/fix_hasattr_call.py", _KPROPS, "hasattr_cfg_v", "hasattr_cfg", "repaired_hasattr", _hasattr_fn,
+       doc="TransformFixHasattrCall.on_result_found (any number of arguments / exactly two) + the semgrep detector pattern")
+
+
+# ---- fix_empty_sequence_comparison / literal_or_new_object_identity ------------------------------------
+def _empty_seq_fn(tree, repo):
+    v = _variant("kernel_empty_seq", tree, "FixEmptySequenceComparison", ["leave_Comparison", "_is_empty_sequence"], [])
+    return {"Pinned": "pinned_empty_seq", "Repaired": "repaired_empty_seq"}[v]
+
+
+custom("kernel_empty_seq", "src/core_codemods/fix_empty_sequence_comparison.py", _KPROPS, "empty_seq_cfg_v", "empty_seq_cfg",
+       "repaired_empty_seq", _empty_seq_fn,
+       doc="FixEmptySequenceComparison.leave_Comparison (works on the original node; `not x` keeps the comparison's parentheses?) + _is_empty_sequence")
+
+
+def _identity_fn(tree, repo):
+    _variant("kernel_identity", tree, "LiteralOrNewObjectIdentityTransformer", ["_is_object_creation_or_literal", "leave_Comparison"], [])
+    wired = find_assign(tree, "LiteralOrNewObjectIdentity")
+    if wired is None or "LiteralOrNewObjectIdentityTransformer" not in ast.dump(wired):
+        raise Unrecognised("LiteralOrNewObjectIdentity is not built from LiteralOrNewObjectIdentityTransformer")
+    return "true"
+
+
+custom("kernel_identity", "src/core_codemods/literal_or_new_object_identity.py", _KPROPS, "identity_recognised", "bool", "true", _identity_fn,
+       doc="LiteralOrNewObjectIdentityTransformer: which operands count as literal / new object; `is` -> `==` on the original node")
